@@ -7,7 +7,7 @@ the reference model mc/ref/c01_model.py (which derives the expectation from the 
 
 Alphabets (written out in mc/ref/c01_model.py, echoed in evidence): TYPES (39 spellings of the types named in the
 property statement), values_for(type) (boundary values exactly representable in the type, each with a shape label),
-PATHS (12; lit_bs = literal INSERT with a quote inside a string constant spelled \\' instead of ''; wp_opts = a 5-row DataFrame x chunk_size {None,1,2,n-1,n,n+1} x DataFrame index {default, shifted,
+PATHS (14; insert_select_cast / ctas_cast = the derived paths with the declared type spelling inside a cast of the selected column; lit_bs = literal INSERT with a quote inside a string constant spelled \\' instead of ''; wp_opts = a 5-row DataFrame x chunk_size {None,1,2,n-1,n,n+1} x DataFrame index {default, shifted,
 reversed, string labels, duplicate labels} x parallel {4,1} x quote_identifiers {True,False}), PLACEMENTS (NULL none / first / middle / last, plus one all-NULL cell per batch).
 PLACEMENTS also has "after_identity": the value preceded by the identity value of its type (0, '', False, {}, epoch..).
 quick = every type x every path x QUICK_SHAPES (keeps every identity value) x {none, first, middle, after_identity}
@@ -246,7 +246,7 @@ def _batch_body(ts, path, cells, state, fs, conn, out):
         _raw_insert(rawc, f"{q}.BY1", ts, by_rows)
         target = f"{DB}.{SCHEMA}.T1"
         new_tables = ()
-        if path in M.SQL_PATHS or path in ("wp", "wp_opts", "insert_select"):
+        if path in M.SQL_PATHS or path in ("wp", "wp_opts", "insert_select", "insert_select_cast"):
             ex(f"CREATE TABLE T1 (ID INT, V {sqlt})")
             _raw_insert(rawc, f"{q}.T1", ts, by_rows[:2])
         elif path == "wp_subset":
@@ -319,8 +319,13 @@ def _batch_body(ts, path, cells, state, fs, conn, out):
         pre = _user_digest(fs)
         if path == "insert_select":
             act = _try(lambda: ex("INSERT INTO T1 (ID, V) SELECT ID, V FROM STG") and None)
+        elif path == "insert_select_cast":
+            act = _try(lambda: ex(f"INSERT INTO T1 (ID, V) SELECT ID, V::{sqlt} FROM STG") and None)
         elif path == "ctas":
             act = _try(lambda: ex("CREATE TABLE T1 AS SELECT ID, V FROM STG") and None)
+            new_tables = (target,)
+        elif path == "ctas_cast":
+            act = _try(lambda: ex(f"CREATE TABLE T1 AS SELECT ID, CAST(V AS {sqlt}) AS V FROM STG") and None)
             new_tables = (target,)
         else:
             act = _try(lambda: ex("CREATE TABLE T1 CLONE STG") and None)
